@@ -196,7 +196,7 @@ CHECKS = {
         "appear, nothing may reach the loop exception handler, exactly the decodable lines are delivered. (2) 22 bad-line classes at every position "
         "of a stream via dict, log file and serial port. (3) Every <=2-cut (thorough <=3-cut) partition of a serial byte stream, 1-byte and empty reads.",
         design_ref="4/C01",
-        note="Edit alphabet and base selection are stated in the evidence rule; MQTT JSON envelope handling is not enumerated here.",
+        note="Edit alphabet and base selection are stated in the evidence rule; MQTT: each line travels in a well-formed ramses_esp JSON envelope (malformed envelopes are outside the statement).",
     ),
     "C02": dict(
         engine="E3-enum",
